@@ -240,6 +240,23 @@ def _gen_for(stream, seed):
                 ev["reb_sectors"] = dict(rebs[0]["reb_sectors"])
                 ev["shares_series"] = True
                 ev["factor"] = rebs[0]["factor"] if rebs[0]["factor"] != 1.0 else 0.5
+        r4 = random.Random(seed ^ 0x4F1)
+        if len(rebs) >= 2 and r4.random() < 0.3:
+            # four overlapping rebuilding events: the two registered first are identical, tiny and rebuilt in one step (they
+            # finish in the very same step and free the two lowest block ids), the two others are still being served
+            a_ = copy.deepcopy(rebs[0])
+            f_ = 1e-7
+            a_["impact"] = {k: v * f_ for k, v in rebs[-1]["impact"].items()}
+            a_["house"] = None
+            a_["emf"] = rebs[-1]["emf"]
+            a_["reb_sectors"] = dict(rebs[-1]["reb_sectors"])
+            a_["rebuild_tau"], a_["occ"], a_["dur"] = 1, 1, 1
+            b_ = copy.deepcopy(a_)
+            big1, big2 = copy.deepcopy(rebs[-1]), copy.deepcopy(rebs[-1])
+            big1["occ"], big1["dur"], big1["rebuild_tau"] = 1, 1, r4.choice([10, 30])
+            big2["occ"], big2["dur"], big2["rebuild_tau"] = 2, 1, r4.choice([5, 20])
+            big2["impact"] = {k: v * 0.5 for k, v in big2["impact"].items()}
+            sc["events"] = [a_, b_, big1, big2]
         sc["stream"] = "finishing"
         return sc
     if stream == "sudden":
